@@ -272,6 +272,9 @@ def run(prog: Program, rep: Report, tier: str = "quick") -> None:
     rep.floor("R19.2", 25)
 
     run_r194(prog, rep)
+    from . import game
+
+    game.add_instances(rep, game.c19_job, [tier], "R19.5", 9)
 
     # class-level attributes and decorators of the role classes
     for kind in ROLE_KINDS:
